@@ -112,6 +112,8 @@ type Profile struct {
 	PAnnotate   float64
 	PCordon     float64
 	PExtTaint   float64
+	PZeroCreation float64 // node objects with a zero creationTimestamp
+	PAsgEdit    float64 // operator edits of the ASG min/max/desired
 }
 
 func baseProfile() Profile {
@@ -120,7 +122,7 @@ func baseProfile() Profile {
 		PDry: 0.08, PGlobalDry: 0.03, PFleet: 0.2, PStarve: 0.2, PMaxAge: 0.15, PAuto: 0.15, PMaxBelow: 0.3,
 		PCalm: 0.5, PCrash: 0.3, POdd: 0.1, PNegRates: 0.04, PInvalid: 0.03, PDefault: 0.25,
 		OperatorP: 0.08, Interleave: 0.05, HorizonLo: 20, HorizonHi: 60, PReconfigure: 0.3, EdgeBias: 0.3,
-		ShortCool: 0.6, ShortGrace: 0.7, POverMax: 0.08, PForceTaint: 0.25, PAnnotate: 0.25, PCordon: 0.3, PExtTaint: 0.25,
+		ShortCool: 0.6, ShortGrace: 0.7, POverMax: 0.08, PForceTaint: 0.25, PAnnotate: 0.25, PCordon: 0.3, PExtTaint: 0.25, PZeroCreation: 0.03, PAsgEdit: 0.08,
 	}
 }
 
@@ -129,21 +131,21 @@ func profileFor(prop string) Profile {
 	p.Name = prop
 	switch prop {
 	case "C01":
-		p.ShortGrace, p.PExtTaint, p.PCrash, p.PCordon = 0.9, 0.5, 0.5, 0.4
+		p.ShortGrace, p.PExtTaint, p.PCrash, p.PCordon, p.PForceTaint = 0.9, 0.5, 0.5, 0.4, 0.5
 		p.HorizonLo, p.HorizonHi = 30, 70
 	case "C02":
 		p.ShortCool, p.PCordon, p.PForceTaint, p.PExtTaint, p.OperatorP, p.Interleave = 0.85, 0.5, 0.4, 0.4, 0.15, 0.08
 		p.PDry, p.PGlobalDry = 0.02, 0
 	case "C03":
-		p.PAuto, p.PCordon = 0.35, 0.4
+		p.PAuto, p.PCordon, p.PAsgEdit, p.PForceTaint = 0.35, 0.4, 0.4, 0.35
 	case "C04":
-		p.PMaxBelow, p.PAuto = 0.6, 0.1
+		p.PMaxBelow, p.PAuto, p.PAsgEdit = 0.6, 0.15, 0.3
 	case "C05", "C06":
 		p.EdgeBias, p.PDry, p.PGlobalDry, p.POdd = 0.5, 0.02, 0, 0.02
 	case "C07":
-		p.PForceTaint, p.PExtTaint, p.PDry = 0.5, 0.4, 0.02
+		p.PForceTaint, p.PExtTaint, p.PDry, p.PZeroCreation = 0.5, 0.4, 0.02, 0.1
 	case "C08":
-		p.PDry, p.EdgeBias = 0.02, 0.2
+		p.PDry, p.EdgeBias, p.PZeroCreation = 0.02, 0.2, 0.15
 	case "C09":
 		p.PCordon, p.PForceTaint, p.PAnnotate, p.ShortGrace = 0.7, 0.4, 0.4, 0.9
 	case "C10":
